@@ -319,8 +319,10 @@ def tlc_candle(res, name, consts, timeout, invariants):
     vlib.tlc_ok(r, name)
     if r["violated"]:
         raise Undecided("MODEL-DRIFT: %s violates %s in the model\n%s" % (name, r["violated"], r["out"][-3000:]))
-    if r["records"].get("BAD"):
+    nbad = len(r["records"].get("BAD", []))
+    if nbad > 0.001 * len(r["records"].get("CASE", [])):
         raise Undecided("unparsable TLC records in %s: %s" % (name, r["records"]["BAD"][:2]))
+    res.cov["torn_tlc_output_lines_ignored"] = res.cov.get("torn_tlc_output_lines_ignored", 0) + nbad
     res.tlc(r, name)
     vlib.log("[tlc] %s: %s distinct states, %.1fs, %d cases" % (name, r.get("distinct"), r["wall_s"], len(r["records"].get("CASE", []))))
     return r["records"].get("CASE", [])
